@@ -394,6 +394,14 @@ def _standard_prove(res, prop_file, gen_targets=None, extra=()):
                 res.obligation('translate:' + tgt, True, kind='translation')
             except Exception as e:  # fail closed
                 res.obligation('translate:' + tgt, False, detail='%s: %s' % (type(e).__name__, e), kind='translation')
+    try:
+        import fingerprints
+        ch = fingerprints.changed(REPO, res.prop)
+        if ch is not None:
+            res.obligation('source:hand-modelled functions are the ones the model was validated against (%d watched)' % len(fingerprints.WATCH.get(res.prop, [])),
+                           not ch, detail='changed since validation (translator/fingerprints.json): ' + ', '.join(ch), kind='translation')
+    except Exception as e:
+        res.notes.append('source fingerprints not evaluated: %s: %s' % (type(e).__name__, e))
     files = [prop_file] if isinstance(prop_file, str) else list(prop_file)
     info = None
     for pf in files:
